@@ -85,6 +85,12 @@ def plan(tier, seed):
                 for io in (False, True):
                     cases.append({"src": fn, "srcfmt": None, "explicit_in": False, "inplace": True, "target": "inplace",
                                   "opts": {"c": False, "m": m, "i": io, "o": io}})
+    # directories whose NAMES satisfy a pattern of some format (POSCAR_runs/, h2_FCIDUMP_files/, frames.xyz/ ...): the names are given
+    # relative to the working directory; only the base name decides the format, as in the API
+    for pat in DIR_NAMES:
+        for fn, t in (("water.xyz", "pdb"), ("POSCAR.water", "xyz"), ("FCIDUMP.molpro.h2", "xyz"), ("water_trajectory.xyz", "sdf")):
+            cases.append({"src": fn, "srcfmt": None, "explicit_in": False, "target": t, "dirpat": pat,
+                          "opts": {"c": False, "m": fn == "water_trajectory.xyz", "i": False, "o": False}})
     # the same input NAME converted again after its content was replaced (a script looping over a scratch file): convert() called
     # twice in one process must use the content that is there at the time of the call, as the API calls do
     for t in ("mol2", "pdb", "sdf", "xyz"):
@@ -101,6 +107,10 @@ def plan(tier, seed):
         cases.append({"gen": k, "seed": seed, "target": ["molden", "wfn", "wfx", "molekel"][k % 4], "opts": {"c": bool(k % 2), "m": False, "i": False, "o": False}})
     return cases
 
+
+# directory names built from the name patterns of the formats ('*' replaced by text)
+DIR_NAMES = ["POSCAR_runs", "CHGCAR_old", "LOCPOT.d", "h2_FCIDUMP_files", "frames.xyz", "checkpoints.fchk", "run1.out", "all.molden",
+             "inputs.com", "x.wfn", "x.cube", "x.dat", "x.log"]
 
 MOL2_FRAME = """\
 @<TRIPOS>MOLECULE
@@ -272,6 +282,14 @@ def run_case(case):
                 os.makedirs(os.path.join(root, which), exist_ok=True)
                 shutil.copy(src, os.path.join(root, which, outname))
                 src_for[which] = os.path.join(root, which, outname)
+        sub = case.get("dirpat", "")
+        if sub:
+            counters["dirname_cases"] = 1
+            for which in ("cli", "api", "cv"):
+                os.makedirs(os.path.join(root, which, sub), exist_ok=True)
+                src_for[which] = os.path.join(root, which, sub, os.path.basename(src))
+                shutil.copy(src, src_for[which])
+            label = f"{sub}/{label}"
         infmt = srcfmt if (explicit_in or (opts["i"] and srcfmt)) else None
         outfmt = target if give_o else None
         args = []
@@ -285,7 +303,7 @@ def run_case(case):
             args.append("-m")
         tag = f"{label} -> {target} {' '.join(args)}"
         # (a) CLI
-        out_cli = os.path.join(root, "cli", outname)
+        out_cli = os.path.join(root, "cli", sub, outname)
         os.makedirs(os.path.dirname(out_cli), exist_ok=True)
         if case.get("link_out"):
             # every output name is a symbolic link into a store directory whose file has another name
@@ -299,11 +317,13 @@ def run_case(case):
             with open(out_cli, "wb") as fh:
                 fh.write(SENTINEL)
         env = dict(os.environ, PYTHONPATH=bootstrap.REPO, PYTHONHASHSEED="0")
-        r = subprocess.run([sys.executable, "-m", "iodata", src_for["cli"], out_cli, *args], capture_output=True, text=True, timeout=600, env=env, cwd=root)
+        cli_cwd = os.path.join(root, "cli") if sub else root
+        cli_names = [os.path.relpath(src_for["cli"], cli_cwd), os.path.relpath(out_cli, cli_cwd)] if sub else [src_for["cli"], out_cli]
+        r = subprocess.run([sys.executable, "-m", "iodata", *cli_names, *args], capture_output=True, text=True, timeout=600, env=env, cwd=cli_cwd)
         counters["cli_runs"] += 1
         cli_bytes = open(out_cli, "rb").read() if os.path.exists(out_cli) else None
         # (b) API
-        out_api = os.path.join(root, "api", outname)
+        out_api = os.path.join(root, "api", sub, outname)
         os.makedirs(os.path.dirname(out_api), exist_ok=True)
         if not case.get("inplace"):
             with open(out_api, "wb") as fh:
@@ -312,15 +332,22 @@ def run_case(case):
         counters["api_runs"] += 1
         api_bytes = open(out_api, "rb").read() if os.path.exists(out_api) else None
         # (c) convert()
-        out_cv = os.path.join(root, "cv", outname)
+        out_cv = os.path.join(root, "cv", sub, outname)
         os.makedirs(os.path.dirname(out_cv), exist_ok=True)
+        cwd0 = os.getcwd()
+        cv_names = [src_for["cv"], out_cv]
+        if sub:
+            os.chdir(os.path.join(root, "cv"))
+            cv_names = [os.path.relpath(n, os.path.join(root, "cv")) for n in cv_names]
         with warnings.catch_warnings():
             warnings.simplefilter("ignore")
             try:
-                convert(src_for["cv"], out_cv, opts["m"], infmt, outfmt, opts["c"])
+                convert(cv_names[0], cv_names[1], opts["m"], infmt, outfmt, opts["c"])
                 cv_outcome = "ok"
             except Exception as exc:
                 cv_outcome = type(exc).__name__
+            finally:
+                os.chdir(cwd0)
         counters["convert_runs"] += 1
         cv_bytes = open(out_cv, "rb").read() if os.path.exists(out_cv) else None
 
